@@ -180,7 +180,11 @@ abbrev Segs := List (NExpr × List Nat)
 inductive RItem
   | scalar (sz : Nat)
   | array (cnt : RCount) (elem : List Nat)
-  | arrayV (cnt : RCount) (segs : Segs)                 -- elements of a size computed from fields / arguments
+  /-- elements of a size computed from fields / arguments.  `computed = true`: a `ComputedArray` (the getter's
+  `read_with_args(range, &args)` → `ComputedArray::new`, whose length is `data.len().checked_div(item_len).unwrap_or(0)`:
+  **zero** elements when the element size is zero); `computed = false`: one record read in place
+  (`read_with_args::<R>(range, &args)`, `cursor.read_with_args(&args)`) -/
+  | arrayV (cnt : RCount) (segs : Segs) (computed : Bool)
   | arrayL (cnt : RCount) (hw : Nat) (item : List Nat)  -- `VarLenArray`: each element = `hw`-byte item count + items
   deriving DecidableEq, Repr
 
@@ -405,8 +409,11 @@ def parseField (view : View) (r : RF) (bs : Bytes) : Option (Val × Bytes) :=
       match parseRecs elem (evalCount view bs elem cnt) bs with
       | some (xs, rest) => some (.arr xs, rest)
       | none => none
-    | .arrayV cnt segs =>
-      match parseRecs (evalSegs view segs) (evalCount view bs (evalSegs view segs) cnt) bs with
+    | .arrayV cnt segs computed =>
+      let ws := evalSegs view segs
+      let n := evalCount view bs ws cnt
+      -- read-fonts/src/array.rs `ComputedArray::new`: the number of zero-sized items cannot be recovered from the bytes
+      match parseRecs ws (if computed && elemSize ws == 0 then 0 else n) bs with
       | some (xs, rest) => some (.arr xs, rest)
       | none => none
     | .arrayL cnt hw item =>
@@ -438,6 +445,8 @@ inductive Assume
   | lenIsExpr (arr : Nat) (e : NExpr) -- an owned `Vec` has exactly as many elements as the reader computes (`e`)
   | elemLen (arr : Nat) (segs : Segs) -- every element of an owned `Vec` of variable-size records has exactly the
                                      -- scalars of the element layout the reader computes
+  | elemSized (arr : Nat) (segs : Segs) -- a non-empty owned `Vec` has elements of non-zero size (a `ComputedArray` of
+                                     -- zero-sized items reads back empty)
   deriving DecidableEq, Repr
 
 def Assume.holds (o : Obj) (view : View) : Assume → Prop
@@ -446,6 +455,7 @@ def Assume.holds (o : Obj) (view : View) : Assume → Prop
   | .lenIs arr n => ∀ xs, o.get arr = .arr xs → xs.length = n
   | .lenIsExpr arr e => ∀ xs, o.get arr = .arr xs → xs.length = e.eval view
   | .elemLen arr segs => ∀ xs, o.get arr = .arr xs → ∀ x ∈ xs, x.length = (evalSegs view segs).length
+  | .elemSized arr segs => ∀ xs, o.get arr = .arr xs → xs ≠ [] → 0 < elemSize (evalSegs view segs)
 
 /-- the writer statement that wrote the count the reader sizes array `arr` with -/
 def isCountFor (g arr a b : Nat) (p : WF) : Bool :=
@@ -497,9 +507,9 @@ def itemCompat (as : List Assume) (pre later : List WF) (id : Nat) : WItem → R
     match cnt with
     | .rest => later.isEmpty && decide (0 < elemSize elem)
     | c => cntCompat as pre later id fixed c
-  | .arrayV wpre tail fixed, .arrayV cnt segs =>
+  | .arrayV wpre tail fixed, .arrayV cnt segs computed =>
     segsCompat tail wpre segs && as.contains (.elemLen id segs) && exprFresh later id (segsRefs segs) &&
-      cntCompat as pre later id fixed cnt
+      (!computed || as.contains (.elemSized id segs)) && cntCompat as pre later id fixed cnt
   | .arrayL hw item, .arrayL cnt hw' item' =>
     hw == hw' && item == item' && cntCompat as pre later id none cnt
   | _, _ => false
